@@ -355,7 +355,8 @@ class RandomWalk(Processor):
             new_point, index = _take_step(vector_bundle, step_length, last_point, self.maxdim)
             if fulfill_geometrical_constraints(new_point, self.molecule.nodes[current_node])\
                 and self.checks_milestones(current_node, new_point, step_length)\
-                and is_restricted(new_point, last_point, self.molecule.nodes[current_node])\
+                and is_restricted(last_point + vector_bundle[index] * step_length, last_point,
+                                  self.molecule.nodes[current_node])\
                 and self.bendiness(new_point, current_node)\
                 and not self._is_overlap(new_point, current_node):
 
